@@ -68,6 +68,33 @@ def nodes_consumed(p):
             okc, howc, rel = cmp_reject_relation(h, cs, per_iteration=L)
             if okc and rel == "Ne":
                 return True, "get_root: pointer != nodes.len() -> Err for every node vector before the root is returned: " + howc
+    # iterator form: proof_pointers.iter().zip(self.nodes.iter()).any(|(p, n)| *p != n.len()) -> Err
+    for bi, t in h.calls():
+        c = callee_of(t)
+        if h.is_cleanup(bi) or not c or c.get("name") not in ("any", "all") or len(t["a"]) != 2:
+            continue
+        rs = h.slice_of_operand(t["a"][0], at=(bi, 10**6))
+        if not (pp & rs["locals"]) or "nodes" not in set(slice_field_bases(rs)):
+            continue
+        rel = None
+        for ck in rs["closures"] | h.slice_of_operand(t["a"][1], at=(bi, 10**6))["closures"]:
+            cf = p.funcs.get(ck)
+            if not cf:
+                continue
+            for cs in cmp_sites(cf):
+                names = {(callee_of(cf.term(b)) or {}).get("name") for o in (cs["a"], cs["b"]) if op_local(o) is not None
+                         for b in cf.slice_of_operand(o, at=(cs["bb"], 10**6))["calls"]}
+                if "len" in names and cs["op"] in ("Ne", "Eq") and cs["local"] in cf.copy_chain(0) | {cs["local"]}:
+                    rel = cs["op"]
+        if rel is None:
+            continue
+        # any(!=) rejects when true; all(==) rejects when false
+        want_reject = (c["name"] == "any" and rel == "Ne") or (c["name"] == "all" and rel == "Eq")
+        if not want_reject:
+            continue
+        okg, howg = check_bool_guard(h, bi, reject_when=(c["name"] == "any"))
+        if okg:
+            return True, "get_root: %s(pointer %s nodes.len()) over every node vector guards the Ok exit: %s" % (c["name"], "!=" if rel == "Ne" else "==", howg)
     return False, "get_root does not check that every node vector of the proof was consumed (surplus proof nodes are ignored)"
 
 
@@ -134,11 +161,15 @@ def r1_rejection(ctx):
         names_b = {(callee_of(m.term(b)) or {}).get("name") for b in sb["calls"]}
         if "pow" in names_b or "pow" in names_a:
             oks = m.ok_exit_blocks()
+            NEG = {"Ge": "Lt", "Lt": "Ge", "Le": "Gt", "Gt": "Le"}
             for c in m.bool_checks_of_local(s["local"]):
                 t_reach = any(m.can_reach(t, oks) for _, t in c["true_edges"])
                 f_reach = any(m.can_reach(t, oks) for _, t in c["false_edges"])
-                rel = s["op"] if not t_reach else None
-                if not t_reach and f_reach and ((s["op"] == "Ge" and "pow" in names_b) or (s["op"] == "Le" and "pow" in names_a)):
+                if t_reach == f_reach or s["op"] not in NEG:
+                    continue
+                # relation under which the function rejects, read as  a REL b
+                rel = s["op"] if not t_reach else NEG[s["op"]]
+                if (rel == "Ge" and "pow" in names_b) or (rel == "Le" and "pow" in names_a):
                     rng = True
         if "len" in names_a and "len" in names_b:
             ok, how, rel = cmp_reject_relation(m, s)
